@@ -123,16 +123,17 @@ func (c *Conversation) processDataMessageWithRawErrors(header, msg []byte) (plai
 		return
 	}
 
-	if err = c.keys.checkMessageCounter(dataMessage); err != nil {
-		return
-	}
-
 	sessionKeys, err := c.keys.calculateDHSessionKeys(dataMessage.recipientKeyID, dataMessage.senderKeyID, c.version)
 	if err != nil {
 		return
 	}
 
 	if err = dataMessage.checkSign(sessionKeys.receivingMACKey, header, c.version); err != nil {
+		return
+	}
+
+	// the counter is remembered only for authenticated messages: a forged one must not shadow genuine traffic
+	if err = c.keys.checkMessageCounter(dataMessage); err != nil {
 		return
 	}
 
